@@ -7,7 +7,7 @@ import re
 from .model import Call, Prov
 
 
-def blocks_by_value(m, tables, f, cap_pat, adt, pred_pat=r"^acts::scheduler::state::TaskState::(is_[a-z_]+)$"):
+def blocks_by_value(m, tables, f, cap_pat, adt, pred_pat=r"^acts::scheduler::state::TaskState::(is_[a-z_]+)$", recv_ok=None):
     pa = Prov(m, "alias")
     cap = re.compile(cap_pat)
     pred = re.compile(pred_pat)
@@ -15,7 +15,12 @@ def blocks_by_value(m, tables, f, cap_pat, adt, pred_pat=r"^acts::scheduler::sta
     out = {}
 
     def is_cap(r):
-        return r[0] == "call" and cap.search(r[1]) and not r[3]
+        if not (r[0] == "call" and cap.search(r[1]) and not r[3]):
+            return False
+        if recv_ok is None:
+            return True
+        c = Call(f, r[2])
+        return bool(c.args) and recv_ok(pa.root(f, c.args[0]))
 
     for v in byd:
         seen = set()
